@@ -54,11 +54,13 @@ theorem hqs_closed (h α y z : ℝ) (d : hqsDom h y z) :
 /-- the class constructor rejects levels outside `(0,1)` -/
 theorem C04_hqs_level_rejected (h α y z : ℝ) (hα : ¬ (0 < α ∧ α < 1)) :
     scorePair .hqs h α y z = .error .valueError := by
-  unfold scorePair levelOk; rw [if_neg hα]; rfl
+  show (if levelOk α then hqs h α y z else throw Err.valueError) = _
+  rw [if_neg (show ¬ levelOk α from hα)]; rfl
 
 theorem C04_scorePair_hqs (h α y z : ℝ) (hα0 : 0 < α) (hα1 : α < 1) :
     scorePair .hqs h α y z = hqs h α y z := by
-  unfold scorePair levelOk; rw [if_pos ⟨hα0, hα1⟩]
+  show (if levelOk α then hqs h α y z else throw Err.valueError) = _
+  rw [if_pos (show levelOk α from ⟨hα0, hα1⟩)]
 
 /-- every returned score is non-negative -/
 theorem C04_hqs_nonneg (h α y z v : ℝ) (hα0 : 0 < α) (hα1 : α < 1) (e : hqs h α y z = .ok v) :
@@ -104,7 +106,7 @@ theorem C04_hqs_even_degree_rejects_negative (α : ℝ) : hqs 2 α (-1) (-1) = .
   hqs_err not_hqsDom_two_neg
 
 /-- hypotheses of the order theorem are satisfiable: degree `3`, `y = -1 ≤ z₁ = 0 ≤ z₂ = 2` -/
-example : ∃ v₁ v₂, hqs 3 (1 / 4) (-1) 0 = .ok v₁ ∧ hqs 3 (1 / 4) (-1) 2 = .ok v₂ := by
+example : ∃ v₁ v₂ : ℝ, hqs (3 : ℝ) (1 / 4) (-1) 0 = .ok v₁ ∧ hqs (3 : ℝ) (1 / 4) (-1) 2 = .ok v₂ := by
   have d : oddDeg 3 := ⟨by norm_num, 1, by norm_num⟩
   exact ⟨_, _, hqs_closed' (Or.inr (Or.inl d)), hqs_closed' (Or.inr (Or.inl d))⟩
 
@@ -130,11 +132,13 @@ theorem C04_logloss_closed_xlogy (y z : ℝ) (hy0 : 0 ≤ y) (hy1 : y ≤ 1) (hz
     logLoss y z = xlogy y (y / z) + xlogy (1 - y) ((1 - y) / (1 - z)) := by
   rw [xlogy_real, xlogy_real]; exact logLoss_closed hy0 hy1 hz0 hz1
 
-/-- binary observations: the familiar `−log(1 − z)` and `−log z` -/
-theorem C04_logloss_y0 (z : ℝ) : logLoss 0 z = -Real.log (1 - z) := by
+/-- binary observations: the familiar `−log(1 − z)` and `−log z`.  (The hypotheses are not used by
+the proofs — over `ℝ` the identities hold for every `z` — they mark the range where `Real.log`
+and `np.log` agree.) -/
+theorem C04_logloss_y0 (z : ℝ) (_hz : z < 1) : logLoss 0 z = -Real.log (1 - z) := by
   rw [logLoss_real]; simp
 
-theorem C04_logloss_y1 (z : ℝ) : logLoss 1 z = -Real.log z := by
+theorem C04_logloss_y1 (z : ℝ) (_hz : 0 < z) : logLoss 1 z = -Real.log z := by
   rw [logLoss_real]; simp
 
 /-- Gibbs inequality -/
@@ -180,6 +184,11 @@ theorem C04_logloss_order_sensitive (y z₁ z₂ : ℝ) (hy0 : 0 ≤ y) (hy1 : y
   rcases hord with ⟨a, b⟩ | ⟨a, b⟩
   · exact mul_nonneg (by linarith) (by linarith)
   · exact mul_nonneg_of_nonpos_of_nonpos (by linarith) (by linarith)
+
+/-- hypotheses of the log-loss theorems are satisfiable: `y = 1/3 ≤ z₁ = 1/2 ≤ z₂ = 3/4` -/
+example : logLoss (1 / 3 : ℝ) (1 / 2) ≤ logLoss (1 / 3 : ℝ) (3 / 4) :=
+  C04_logloss_order_sensitive _ _ _ (by norm_num) (by norm_num) (by norm_num) (by norm_num)
+    (by norm_num) (by norm_num) (Or.inl ⟨by norm_num, by norm_num⟩)
 
 /-! ## C14 — homogeneity of the quantile family -/
 
@@ -229,7 +238,8 @@ theorem C14_pinball_eq_hqs (h α y z : ℝ) : scorePair .pinball h α y z = scor
 
 theorem C14_pinball (h α y z : ℝ) (hα0 : 0 < α) (hα1 : α < 1) :
     scorePair .pinball h α y z = hqs 1 α y z := by
-  unfold scorePair levelOk; rw [if_pos ⟨hα0, hα1⟩]
+  show (if levelOk α then hqs 1 α y z else throw Err.valueError) = _
+  rw [if_pos (show levelOk α from ⟨hα0, hα1⟩)]
 
 theorem C14_pinball_closed (h α y z : ℝ) (hα0 : 0 < α) (hα1 : α < 1) :
     scorePair .pinball h α y z = .ok ((geInd z y - α) * (z - y)) := by
@@ -251,3 +261,42 @@ theorem C14_hqs_level_half_swap (h y z : ℝ) : hqs h (1 / 2) y z = hqs h (1 / 2
   · rw [hqs_err d, hqs_err (fun d' => d (hqsDom_symm d'))]
 
 end MD
+
+/- Observed `#print axioms` (Lean 4.33.0, Mathlib v4.33.0):
+'MD.hqsDom_def' depends on axioms: [propext, Classical.choice, Quot.sound]
+'MD.gfun_def' depends on axioms: [propext, Classical.choice, Quot.sound]
+'MD.C04_hqs_domain_rejected' depends on axioms: [propext, Classical.choice, Quot.sound]
+'MD.C04_hqs_ok' depends on axioms: [propext, Classical.choice, Quot.sound]
+'MD.C04_hqs_ok_iff' depends on axioms: [propext, Classical.choice, Quot.sound]
+'MD.hqs_closed' depends on axioms: [propext, Classical.choice, Quot.sound]
+'MD.C04_hqs_level_rejected' depends on axioms: [propext, Classical.choice, Quot.sound]
+'MD.C04_scorePair_hqs' depends on axioms: [propext, Classical.choice, Quot.sound]
+'MD.C04_hqs_nonneg' depends on axioms: [propext, Classical.choice, Quot.sound]
+'MD.C04_hqs_zero' depends on axioms: [propext, Classical.choice, Quot.sound]
+'MD.C04_hqs_pos' depends on axioms: [propext, Classical.choice, Quot.sound]
+'MD.C04_hqs_order_sensitive' depends on axioms: [propext, Classical.choice, Quot.sound]
+'MD.not_hqsDom_two_neg' depends on axioms: [propext, Classical.choice, Quot.sound]
+'MD.C04_hqs_even_degree_rejects_negative' depends on axioms: [propext, Classical.choice, Quot.sound]
+'MD.C04_logloss_scorePair' depends on axioms: [propext, Classical.choice, Quot.sound]
+'MD.C04_logloss_closed' depends on axioms: [propext, Classical.choice, Quot.sound]
+'MD.C04_logloss_closed_xlogy' depends on axioms: [propext, Classical.choice, Quot.sound]
+'MD.C04_logloss_y0' depends on axioms: [propext, Classical.choice, Quot.sound]
+'MD.C04_logloss_y1' depends on axioms: [propext, Classical.choice, Quot.sound]
+'MD.C04_logloss_nonneg' depends on axioms: [propext, Classical.choice, Quot.sound]
+'MD.C04_logloss_zero' depends on axioms: [propext, Classical.choice, Quot.sound]
+'MD.C04_logloss_zero_zero' depends on axioms: [propext, Classical.choice, Quot.sound]
+'MD.C04_logloss_one_one' depends on axioms: [propext, Classical.choice, Quot.sound]
+'MD.C04_logloss_pos' depends on axioms: [propext, Classical.choice, Quot.sound]
+'MD.C04_logloss_order_sensitive' depends on axioms: [propext, Classical.choice, Quot.sound]
+'MD.C14_hqs_domain_scale' depends on axioms: [propext, Classical.choice, Quot.sound]
+'MD.C14_hqs_rejected_scale' depends on axioms: [propext, Classical.choice, Quot.sound]
+'MD.C14_hqs_homogeneous' depends on axioms: [propext, Classical.choice, Quot.sound]
+'MD.C14_hqs_scale_invariant' depends on axioms: [propext, Classical.choice, Quot.sound]
+'MD.C14_hqs_scale_invariant'' depends on axioms: [propext, Classical.choice, Quot.sound]
+'MD.C14_hqs_homogeneous_all' depends on axioms: [propext, Classical.choice, Quot.sound]
+'MD.C14_pinball_eq_hqs' depends on axioms: [propext, Classical.choice, Quot.sound]
+'MD.C14_pinball' depends on axioms: [propext, Classical.choice, Quot.sound]
+'MD.C14_pinball_closed' depends on axioms: [propext, Classical.choice, Quot.sound]
+'MD.C14_hqs_level_half_symmetric' depends on axioms: [propext, Classical.choice, Quot.sound]
+'MD.C14_hqs_level_half_swap' depends on axioms: [propext, Classical.choice, Quot.sound]
+-/
